@@ -67,6 +67,16 @@ class Prog:
         p.final_nl = self.final_nl
         return p
 
+    def to_json(self):
+        return {"name": self.name, "final_nl": self.final_nl,
+                "lines": [[l.kind, l.depth, l.func, [list(x) for x in l.segs]] for l in self.lines]}
+
+    @classmethod
+    def from_json(cls, d):
+        p = cls(d["name"], [Line(k, [tuple(x) for x in segs], depth, func) for k, depth, func, segs in d["lines"]])
+        p.final_nl = d.get("final_nl", True)
+        return p
+
     def nphys(self):
         """number of physical lines (a Line may hold embedded newlines)"""
         return sum(l.text().count("\n") + 1 for l in self.lines)
@@ -120,7 +130,16 @@ class Prog:
         t, c = l.segs[j]
         p, n = nb(j, -1), nb(j, 1)
         d.update({"seg": _short(t, c), "cls": c, "prev": _short(*p), "prev_cls": p[1], "next": _short(*n),
-                  "next_cls": n[1]})
+                  "next_cls": n[1], "segs": [list(x) for x in l.segs], "seg_index": j})
+        if p[1] != "edge":
+            k = l.segs.index(p, 0, j) if p in l.segs[:j] else None
+            # nearest occurrence to the left of j
+            for q in range(j - 1, -1, -1):
+                if l.segs[q] == p:
+                    k = q
+                    break
+            p2 = nb(k, -1) if k is not None else ("", "edge")
+            d.update({"prev2": _short(*p2), "prev2_cls": p2[1]})
         return d
 
 
